@@ -1,5 +1,6 @@
 import CattrsModel.FieldConv.Lemmas
 import CattrsModel.FieldConv.History
+import CattrsModel.FieldConv.Presence
 import CattrsModel.Core.ObjDecEq
 /-!
 # C20 — attrs field converters compose with structure hooks as documented
@@ -446,5 +447,82 @@ theorem C20_history_stale_witness :
       applyHandler, callDisp, attrsInit, applyConv, HR.toOption, exK]
 
 end HistoryExamples
+
+/-! ### what counts as "declares a converter": presence, not truthiness (`FieldConv/Presence.lean`)
+
+A converter may be a callable OBJECT whose truth value is `False`.  The generated templates test `a.converter is not None`
+and are covered by the theorems above as they stand (`findHandler` reads `f.conv.isSome`); `_structure_attribute` tests
+truthiness.  Full statement (false for the code as it is, `C20_falsy_witness`; finding candidate F74):
+
+    ∀ cfg env ps kvs, structDictP cfg env ps kvs = classSpec env cfg.prefer (rawsDict (ps.map (·.f)) kvs)
+-/
+section PresenceTheorems
+open FieldConv.Presence
+
+/-- the generating Converter, both templates, converter objects of ANY truth value: the rule (F35 region excluded) -/
+theorem C20_gen_presence_partial (env : Env T) (prefer detailed : Bool) (ps : List (PField T)) (kvs : List (String × Obj))
+    (hne : NoLazyEscape env prefer (ps.map (·.f))) :
+    structDictP { gen := true, tupleStrat := false, detailed := detailed, prefer := prefer } env ps kvs
+      = classSpec env prefer (rawsDict (ps.map (·.f)) kvs) := by
+  have h := C20_gen_spec_partial env prefer (ps.map (·.f)) kvs hne
+  cases detailed <;> simp [structDictP, structDict, h.1, h.2]
+
+/-- the interpretive path (BaseConverter; both classes under the tuple strategy) computes the rule when every converter
+object is truthy (and outside the F36 region) -/
+theorem C20_interp_truthy_partial (env : Env T) (hn : NoDeepSHNF env) (prefer : Bool) (ps : List (PField T))
+    (h : ∀ p ∈ ps, p.truthy = true) :
+    (∀ kvs, interpDictP env prefer ps kvs = classSpec env prefer (rawsDict (ps.map (·.f)) kvs))
+    ∧ (∀ xs, interpTupleP env prefer ps xs = classSpec env prefer (rawsTuple (ps.map (·.f)) xs)) := by
+  have hs := C20_interp_spec_partial env hn prefer (ps.map (·.f))
+  exact ⟨fun kvs => by rw [interpDictP_truthy env prefer ps kvs h]; exact hs.1 kvs,
+         fun xs => by rw [interpTupleP_truthy env prefer ps xs h]; exact hs.2 xs⟩
+
+/-- exactly what the interpretive path does with a FALSY converter: `_structure_attribute` answers as for the attribute
+WITHOUT converter (the rule's no-converter case: the hook's result, an error when there is no hook, whatever the flag),
+and `__init__` then applies the converter to that -/
+theorem C20_interp_falsy_exact (env : Env T) (hn : NoDeepSHNF env) (prefer : Bool) (p : PField T) (raw : Obj)
+    (hf : p.truthy = false) :
+    structAttrP env prefer p raw = fieldSpec env prefer { p.f with conv := Option.none } raw := by
+  have h := structAttr_spec env hn prefer { p.f with conv := Option.none } raw
+  have hb : ∀ x : Option Obj, x.bind (applyConv ({ p.f with conv := Option.none } : FField T)) = x := by
+    intro x; cases x <;> simp [applyConv]
+  rw [hb] at h
+  rw [structAttrP_seen]
+  simp only [PField.seen, hf]
+  exact h
+
+def fkA : PField Nat := { f := { name := "a", ty := some 0, conv := some (exK "Ka"), dflt := Option.none }, truthy := false }
+def fkC : PField Nat := { f := { name := "c", ty := some 1, conv := some (exK "Kc"), dflt := Option.none }, truthy := false }
+
+/-- non-vacuity of `C20_gen_presence_partial` / `C20_interp_truthy_partial`: hypotheses hold, results are the rule's -/
+example : NoLazyEscape exEnvOk true ([fkA, fkC].map (·.f)) := by
+  intro f hf he
+  simp [fkA, fkC] at hf
+  rcases hf with rfl | rfl <;> simp [eagerField, exEnvOk, exEnv] at he ⊢
+
+/-- **Negative witness** (F74 candidate; replayed on the implementation by the class-shape stream and, once recorded, by
+the main stream): a falsy converter object.  Flag on, `a: <type with hook>`: the interpretive path gives `K (hook raw)`
+where the rule (and the generated path) give `K raw`; flag off, `c: <type without hook>`: the interpretive path raises
+where the rule (and the generated path) give `K raw`. -/
+theorem C20_falsy_witness :
+    interpDictP exEnvOk true [fkA] [("a", .str "5")] = some [("a", .coll .tuple [.str "Ka", .int 5])]
+    ∧ classSpec exEnvOk true (rawsDict [fkA.f] [("a", .str "5")]) = some [("a", .coll .tuple [.str "Ka", .str "5"])]
+    ∧ structDictP { gen := true, tupleStrat := false, detailed := true, prefer := true } exEnvOk [fkA] [("a", .str "5")]
+        = some [("a", .coll .tuple [.str "Ka", .str "5"])]
+    ∧ interpDictP exEnvOk false [fkC] [("c", .str "5")] = Option.none
+    ∧ classSpec exEnvOk false (rawsDict [fkC.f] [("c", .str "5")]) = some [("c", .coll .tuple [.str "Kc", .str "5"])]
+    ∧ structDictP { gen := true, tupleStrat := false, detailed := false, prefer := false } exEnvOk [fkC] [("c", .str "5")]
+        = some [("c", .coll .tuple [.str "Kc", .str "5"])] := by
+  refine ⟨?_, ?_, ?_, ?_, ?_, ?_⟩
+  · simp [interpDictP, interpDictArgsP, structAttrP, fkA, lookup, callDisp, exEnvOk, exEnv, attrsInit, applyConv, exK]
+  · simp [classSpec, rawsDict, fieldOutcome, fieldSpec, fkA, lookup, exK]
+  · simp [structDictP, structDict, genDetailed, genHandlers, findHandler, detailedArgs, detailedArg, fkA, lookup, applyHandler,
+      attrsInit, applyConv, HR.toOption, exK]
+  · simp [interpDictP, interpDictArgsP, structAttrP, fkC, lookup, callDisp, exEnvOk, exEnv]
+  · simp [classSpec, rawsDict, fieldOutcome, fieldSpec, fkC, lookup, hasHook, lookupBroken, exEnvOk, exEnv, exK]
+  · simp [structDictP, structDict, genFast, genHandlers, findHandler, fastArgs, fastArg, fkC, lookup, applyHandler, exEnvOk, exEnv,
+      attrsInit, applyConv, HR.toOption, exK]
+
+end PresenceTheorems
 
 end CattrsModel
